@@ -1,5 +1,5 @@
 (* C10 -- lemmas about the model of RestrictedLinearSystem and of the boundary-index code. *)
-From Coq Require Import List Arith Bool ZArith Lia Ring Permutation Sorted QArith Field.
+From Coq Require Import List Arith Bool ZArith Lia Ring Permutation Sorted.
 From Verif.lib Require Import Slice.
 From Verif.C10 Require Import Model.
 Import ListNotations.
@@ -950,17 +950,3 @@ Proof.
   - rewrite He, <- Hm. lia.
   - rewrite <- Hm in He. lia.
 Qed.
-
-Local Open Scope Q_scope.
-Lemma solve2_correct c00 c01 c10 c11 g0 g1 :
-  ~ c00 * c11 - c01 * c10 == 0 ->
-  let a := solve2 c00 c01 c10 c11 g0 g1 in
-  c00 * fst a + c01 * snd a == g0 /\ c10 * fst a + c11 * snd a == g1.
-Proof. intros H. unfold solve2. simpl. split; field; exact H. Qed.
-
-(* at the end point of an open knot vector the collocation matrix of value and derivative of
-   the first two basis functions is [[1, 0], [-c, c]] with c = p/(t_{p+1}-t_1) <> 0: the first
-   coefficient is the value, the second value + derivative/c *)
-Lemma solve2_endpoint c g0 g1 : ~ c == 0 ->
-  let a := solve2 1 0 (- c) c g0 g1 in fst a == g0 /\ snd a == g0 + g1 / c.
-Proof. intros H. unfold solve2. simpl. split; field; auto. Qed.
